@@ -1115,7 +1115,7 @@ var c08IdentShapes = []c08IdentShape{
 	{"empty", []string{}, []string{"svc-automation", "alice"}},
 }
 
-func (r *c08Runner) identities() {
+func (r *c08Runner) identities(rng *mrand.Rand, nRandom int) {
 	pw, u2fL := AuthTypePassword, AuthTypePassword|AuthTypeU2F
 	minters := []c08Cred{{"session", "admin", pw}, {"kmcert", "autoadm", 0}}
 	one := func(cfgIdx int, list []string, class, id string, creds []c08Cred) {
@@ -1125,6 +1125,11 @@ func (r *c08Runner) identities() {
 	}
 	var all []string
 	seen := map[string]bool{}
+	type shapeCfg struct {
+		k    int
+		list []string
+	}
+	var shapeCfgs []shapeCfg
 	for _, sh := range c08IdentShapes {
 		// the entries of this shape next to the environment's own identity
 		list := append([]string{}, sh.configured...)
@@ -1132,6 +1137,7 @@ func (r *c08Runner) identities() {
 			list = append(list, "svc-automation")
 		}
 		k := r.newCfg(list)
+		shapeCfgs = append(shapeCfgs, shapeCfg{k, list})
 		for _, id := range sh.configured {
 			one(k, list, sh.class, id, minters)
 			// somebody who is neither administrator nor automation administrator, for a configured identity
@@ -1144,6 +1150,44 @@ func (r *c08Runner) identities() {
 		for _, id := range sh.requested {
 			one(k, list, sh.class, id, minters)
 		}
+	}
+	// seeded: an entry with one byte replaced / dropped / inserted / its letter case flipped / a blank added
+	const alphabet = "abcxyzABC019-_.*+?|()[]{}^$\\%/ ,"
+	for i := 0; i < nRandom; i++ {
+		si := rng.Intn(len(c08IdentShapes))
+		sh := c08IdentShapes[si]
+		if len(sh.configured) == 0 {
+			continue
+		}
+		e := []byte(sh.configured[rng.Intn(len(sh.configured))])
+		if len(e) == 0 {
+			continue
+		}
+		pos := rng.Intn(len(e))
+		ch := alphabet[rng.Intn(len(alphabet))]
+		var id []byte
+		switch rng.Intn(6) {
+		case 0:
+			id = append(append(append([]byte{}, e[:pos]...), ch), e[pos+1:]...)
+		case 1:
+			id = append(append([]byte{}, e[:pos]...), e[pos+1:]...)
+		case 2:
+			id = append(append(append([]byte{}, e[:pos]...), ch), e[pos:]...)
+		case 3:
+			id = append([]byte{}, e...)
+			if c := id[pos]; c >= 'a' && c <= 'z' {
+				id[pos] = c - 32
+			} else if c >= 'A' && c <= 'Z' {
+				id[pos] = c + 32
+			} else {
+				id = append(id, id[pos])
+			}
+		case 4:
+			id = append(append([]byte{}, e...), ' ')
+		default:
+			id = append([]byte{}, e[:pos+1]...) // a prefix (the whole entry when pos is its last byte)
+		}
+		one(shapeCfgs[si].k, shapeCfgs[si].list, sh.class, string(id), minters[rng.Intn(2):][:1])
 	}
 	// all entries in one list (an entry must not be read as a pattern whatever stands around it), in both orders
 	rev := make([]string, len(all))
@@ -1698,7 +1742,12 @@ func TestVerif_C08(t *testing.T) {
 			r.caseVariants()
 		}
 		if ei == 0 || (thorough && ei == caseSensitiveEnv) {
-			r.identities()
+			nRandom := 60
+			if thorough {
+				nRandom = 1500
+			}
+			// a stream of its own: the cells and histories below keep theirs
+			r.identities(mrand.New(mrand.NewSource(verifSeed()*7919+int64(ei)+8)), nRandom)
 		}
 		if ei == 0 {
 			r.sweeps(rng, thorough)
